@@ -220,6 +220,13 @@ def matrix(ctx, sut):
                 inner["then"] = {"type": "string"}
             doc = place(inner, position, rng)
             control = place(dict(host), position, rng)
+            if idx % 4 == 1 and isinstance(doc, dict) and isinstance(control, dict):
+                # the document names a meta-schema (any draft): an annotation, which changes nothing
+                uri = rng.choice(gs.SCHEMA_URIS)
+                doc, control = {"$schema": uri, **doc}, {"$schema": uri, **control}
+                if rng.random() < 0.5 and isinstance(inner, dict) and position != "root":
+                    inner["$schema"] = rng.choice(gs.SCHEMA_URIS)
+                ctx.count("host.names_a_meta_schema")
             ctx.count("pos." + position)
             ctx.count("kw." + keyword)
             routes = ["parse"] if position == "definitions" else ["parse_element", "parse"]
